@@ -70,6 +70,9 @@ type ledGen struct {
 	maxReorg int
 	// C01 (see gen_led_c01.go): the chain the wallet has synced, mirrored to count notification classes
 	synced []string
+	// optional hook run on every transaction just before it is emitted (nil = none; set by the txb generator,
+	// which must keep the amounts of a wallet's coins pairwise distinct: see txbGen.uniqAmounts)
+	fixTx func(t *gTx)
 }
 
 func (l *ledGen) op(class, f string, a ...interface{}) { l.g.Op(class, f, a...) }
@@ -228,6 +231,9 @@ func (l *ledGen) makeTx(ins []gCoin, kind string) *gTx {
 func (l *ledGen) define(t *gTx) {
 	if _, ok := l.defined[t.name]; ok {
 		return
+	}
+	if l.fixTx != nil {
+		l.fixTx(t)
 	}
 	l.defined[t.name] = t
 	l.op("tx", "%s", t.line)
